@@ -69,7 +69,7 @@ type vfLView struct {
 
 func (s *vfLSys) view() vfLView {
 	l := &s.lru
-	v := vfLView{items: map[string]lruItem{}, cur: l.currentSize, res: l.reservedSize, unc: l.uncompressedSize, qBytes: l.queuedEvictionsSize.Load()}
+	v := vfLView{items: map[string]lruItem{}, cur: l.TotalSize(), res: l.ReservedSize(), unc: l.UncompressedSize(), qBytes: l.queuedEvictionsSize.Load()}
 	seen := map[string]bool{}
 	for e := l.ll.Back(); e != nil; e = e.Prev() {
 		kv := e.Value.(*entry)
